@@ -3,6 +3,7 @@ package props
 import (
 	"fmt"
 	"math/big"
+	"strings"
 
 	"svcheck/absint"
 	"svcheck/load"
@@ -147,6 +148,21 @@ func lenIs(it *absint.Interp, name string, n int64) (is bool, decided bool) {
 	}
 	if v, ok := known(it, absint.EQ(l, absint.TInt(n))); ok {
 		return v, true
+	}
+	// the decoded form of a hex string: n bytes need exactly 2n characters, so a path that bounds the string's length
+	// away from 2n (a length guard taken before anything is decoded) excludes n decoded bytes
+	if strings.HasPrefix(name, "unhex(") && strings.HasSuffix(name, ")") {
+		src := name[len("unhex(") : len(name)-1]
+		ls := it.ApplyTerm(absint.SymInt("len("+src+")", big.NewInt(0), big.NewInt(1<<62)))
+		if k, ok := ls.IsConst(); ok {
+			return k.Int64() == 2*n, true
+		}
+		if v, ok := known(it, absint.LT(absint.TInt(2*n), ls)); ok && v {
+			return false, true
+		}
+		if v, ok := known(it, absint.LT(ls, absint.TInt(2*n))); ok && v {
+			return false, true
+		}
 	}
 	return false, false
 }
